@@ -173,17 +173,23 @@ type leafInfo struct {
 	flat          map[string]string
 	interpretable bool
 	either        bool // multi-valued RDN of distinct types: the statement allows both readings
+	emptyDup      bool // an attribute type occurs several times and at least once with the empty value
 	why           string
 }
 
 func analyse(leaf [][]pki.AV) leafInfo {
 	li := leafInfo{flat: map[string]string{}, interpretable: true}
 	count := map[string]int{}
+	emptyOf := map[string]int{}
 	for _, rdn := range leaf {
 		if len(rdn) > 1 {
 			li.either = true
 		}
 		for _, a := range rdn {
+			if a.V == "" {
+				emptyOf[a.T]++
+				continue // as if absent
+			}
 			count[a.T]++
 			li.flat[a.T] = a.V
 			if a.T == "X" {
@@ -205,6 +211,11 @@ func analyse(leaf [][]pki.AV) leafInfo {
 			li.interpretable, li.why = false, "duplicate-"+t
 		}
 	}
+	for t, n := range emptyOf {
+		if n+count[t] > 1 {
+			li.emptyDup = true // "OU=" next to "OU=x" or to another "OU=": a duplicate, or absent attributes - not judged
+		}
+	}
 	for _, m := range []string{"C", "ST", "O"} {
 		if count[m] == 0 {
 			li.interpretable, li.why = false, "missing-"+m
@@ -218,6 +229,9 @@ func analyse(leaf [][]pki.AV) leafInfo {
 
 func modelPass(c Case) (bool, bool) {
 	li := analyse(c.Leaf)
+	if li.emptyDup {
+		return false, true
+	}
 	hasX509 := false
 	for _, id := range c.Idents {
 		if id.Prefix == "*" {
@@ -236,6 +250,9 @@ func modelPass(c Case) (bool, bool) {
 		}
 		ok := true
 		for _, a := range id.AVs {
+			// an attribute with the empty string as its value is treated like an absent one, on both
+			// sides (crypto/x509 itself drops an empty common name when it renders a subject, so the
+			// two cannot be told apart; the statement does not speak about empty values)
 			if li.flat[a.T] != a.V {
 				ok = false
 			}
@@ -363,7 +380,11 @@ func identityProp(rec *stats.Recorder) func(rt *rapid.T) {
 		}
 		for _, typ := range []string{"OU", "CN", "L", "STREET", "POSTALCODE", "SERIALNUMBER"} {
 			if rapid.IntRange(0, 2).Draw(rt, "has"+typ) == 0 {
-				avs = append(avs, pki.AV{T: typ, V: drawValue(rt, "v"+typ, false)})
+				v := drawValue(rt, "v"+typ, false)
+				if shape == "plain" && rapid.IntRange(0, 11).Draw(rt, "empty"+typ) == 0 {
+					v = "" // an attribute that is present with the empty string as its value
+				}
+				avs = append(avs, pki.AV{T: typ, V: v})
 			}
 		}
 		switch shape {
@@ -421,7 +442,11 @@ func identityProp(rec *stats.Recorder) func(rt *rapid.T) {
 			main = append(main, base...)
 			for _, typ := range []string{"OU", "CN", "L", "STREET", "POSTALCODE", "SERIALNUMBER"} {
 				if !seen[typ] {
-					main = append(main, pki.AV{T: typ, V: drawValue(rt, "extra", false)})
+					extra := drawValue(rt, "extra", false)
+					if rapid.IntRange(0, 3).Draw(rt, "extraEmpty") == 0 {
+						extra = "" // pins an attribute the leaf does not have to the empty value: still a superset
+					}
+					main = append(main, pki.AV{T: typ, V: extra})
 					break
 				}
 			}
@@ -432,7 +457,13 @@ func identityProp(rec *stats.Recorder) func(rt *rapid.T) {
 			main = append(main, base...)
 			k := rapid.IntRange(0, len(main)-1).Draw(rt, "nearAt")
 			v := []rune(main[k].V)
-			switch rp.Pick(rt, "nearOp", "append", "drop", "case", "prefix") {
+			nearOp := rp.Pick(rt, "nearOp", "append", "drop", "case", "prefix", "empty", "empty")
+			if mandatory := main[k].T == "C" || main[k].T == "ST" || main[k].T == "O"; nearOp == "empty" && (mandatory || main[k].V == "") {
+				nearOp = "append" // mandatory attributes cannot be empty in an identity
+			}
+			switch nearOp {
+			case "empty":
+				v = nil
 			case "append":
 				v = append(v, 'a')
 			case "drop":
@@ -503,6 +534,16 @@ func identityProp(rec *stats.Recorder) func(rt *rapid.T) {
 		}
 		if kind == "unknown-prefix-only" {
 			cl = append(cl, "class=no-x509-identity")
+		}
+		for _, id := range c.Idents {
+			for _, a := range id.AVs {
+				if a.V == "" {
+					cl = append(cl, "identity-with-empty-value")
+					if li.flat[a.T] != "" {
+						cl = append(cl, "identity-empty-value-against-valued-attribute")
+					}
+				}
+			}
 		}
 		if either {
 			cl = append(cl, "either-outcome(multivalued-leaf)")
